@@ -1,13 +1,32 @@
 """C21 - KNX/IP bodies round-trip exactly."""
 
 from contracts.knxip_common import body_classes
-from pyvc.api import Bytes, lemma
+from pyvc.api import Bytes, forall_range, lemma
 from xknx.exceptions import ConversionError, CouldNotParseKNXIP
 from xknx.knxip import KNXIPFrame
 from xknx.knxip.description_response import DescriptionResponse
 from xknx.knxip.search_request_extended import SearchRequestExtended
 from xknx.knxip.search_response import SearchResponse
 from xknx.knxip.search_response_extended import SearchResponseExtended
+
+# octet positions of a body the specification reserves (the parser ignores them, the encoder emits 0)
+RESERVED = {
+    "ConnectRequest": (19,),  # CRI: reserved octet after the KNX layer
+    "ConnectionStateRequest": (1,),
+    "DisconnectRequest": (1,),
+    "DeviceConfigurationRequest": (3,),
+    "TunnellingRequest": (3,),
+    "SessionAuthenticate": (0,),
+    "SessionStatus": (1,),
+    "TunnellingFeatureGet": (5,),
+    "TunnellingFeatureInfo": (5,),
+    "TunnellingFeatureResponse": (5,),
+    "TunnellingFeatureSet": (5,),
+}
+
+
+def _same_octet(B, out, raw, i):
+    return i in RESERVED.get(B.__name__, ()) or out[i] == raw[i]
 
 LIST_BODIES = (DescriptionResponse, SearchResponse, SearchResponseExtended, SearchRequestExtended)
 
@@ -36,6 +55,10 @@ def wire_value_roundtrip(B, max_len, raw):
     except ConversionError:
         return  # refused by the encoder: outside "can be serialized"
     assert len(out) == body.calculated_length()
+    # the parser must not lose information: whatever it accepted is reproduced by the encoder
+    # (up to reserved octets and octets after the structure, which the parser ignores by design)
+    common = len(out) if len(out) <= len(raw) else len(raw)
+    assert forall_range(common, lambda i: _same_octet(B, out, raw, i))
     frame = KNXIPFrame.init_from_body(body)
     wire = frame.to_knx()
     assert frame.header.total_length == len(wire) == 6 + body.calculated_length()
